@@ -275,6 +275,20 @@ def check_discipline(ctx, trace, ending, att, case):
         ctx.violation('segment_fetcher.retry', 'timeout-without-exhaustion', 'InterestTimeout raised before the attempts were used up', case)
 
 
+def check_asks(ctx, M, cfg, es, asks, case, site):
+    """The Interests the producer saw are exactly Spec.expected_asks (C19_interests_observed)."""
+    ea = norm(M([7, cfg, es]))
+    ia = norm([enc_req(t[1]) for t in asks])
+    if ia != ea:
+        if any(q not in ia for q in ea):
+            cls = 'interest-missing'
+        elif any(q not in ea for q in ia):
+            cls = 'interest-extra'
+        else:
+            cls = 'interest-count-or-order'
+        ctx.violation(site, cls, f'producer saw {len(ia)} Interests, specification lists {len(ea)}', case)
+
+
 # ---- generators ----------------------------------------------------------------------------------------
 def loss_patterns(r):
     att = max(1, r)
@@ -433,6 +447,7 @@ def run_scenario(ctx, loop, s, retry, lifetime, mbf, how, stratum):
     for v in app.kwlog:
         if v[0] is not validator or v[1] is not None or v[2]:
             ctx.violation('segment_fetcher.express', 'validator-not-passed', 'express_interest called without the caller\'s validator', case)
+    check_asks(ctx, M, cfg, es, asks, case, 'segment_fetcher.express')
     if asks and (asks[0][1][0] != s['prefix'] or not asks[0][1][1]):
         ctx.violation('segment_fetcher.express', 'discovery-interest', 'first Interest is not the CanBePrefix Interest for the given name', case)
     nd = sum(1 for t in asks if t[1][1])
